@@ -28,6 +28,20 @@ func init() {
 		},
 		Gen: func(r *Rand, idx int, tier string) map[string]any {
 			d := GenDoc(r, DocOpts{MinRecords: 1})
+			if idx%16 == 15 { // the re-flower on its own: arbitrary words, widths and line prefixes
+				n := r.Intn(12) + 1
+				var ws []string
+				for i := 0; i < n; i++ {
+					w := Pick(r, []string{"", "a", "ab", "word", "ä", "日本", "loooooooooong", "x\ty", "#tag", "1h30m", "-", "\x1b[0m"})
+					ws = append(ws, w)
+				}
+				text := strings.Join(ws, Pick(r, []string{" ", " ", " ", "  ", "\n", " \n"}))
+				var pf []string
+				for i := r.Intn(4); i > 0; i-- {
+					pf = append(pf, Pick(r, []string{"", "    ", "# ", "#   ", "> ", "ä "}))
+				}
+				return map[string]any{"kind": "reflow", "text": hx(text), "width": r.Intn(24), "prefixes": strings.Join(pf, "\x00"), "nprefixes": len(pf), "line": -1}
+			}
 			m := Mutate(r, d)
 			if m == nil {
 				return map[string]any{"text": hx(GenLayout(r)), "kind": "layout", "line": -1}
@@ -52,6 +66,32 @@ func runC10(env *Env, data map[string]any) *Outcome {
 	text := textOf(data, "text")
 	kind := str(data, "kind")
 	o := &Outcome{Key: hashKey(text), Tags: []string{"kind:" + kind, "class:" + str(data, "class")}}
+	if kind == "reflow" {
+		var pf []string
+		if num(data, "nprefixes") > 0 {
+			pf = strings.Split(str(data, "prefixes"), "\x00")
+		}
+		got := tf.NewReflower(num(data, "width"), "\n").Reflow(text, pf)
+		arg := "none"
+		if len(pf) > 0 {
+			var hs []string
+			for _, x := range pf {
+				hs = append(hs, hx(x))
+			}
+			arg = strings.Join(hs, ",")
+		}
+		model := env.Drv.Ask("reflow", fmt.Sprint(num(data, "width")), hx(text), arg)
+		o.Evals = 1
+		o.Nontrivial = strings.Contains(got, "\n")
+		if model != "ok "+hx(got) {
+			o.Findings = append(o.Findings, Finding{Kind: "K", What: "K.C10.reflow: Reflower.Reflow differs from the model", Impl: short(got, 800), Model: short(unhx(strings.TrimPrefix(model, "ok ")), 800)})
+		}
+		// D: re-flowing only replaces blanks by line breaks (and adds prefixes): without prefixes, the words stay
+		if len(pf) == 0 && strings.Join(strings.Fields(got), " ") != strings.Join(strings.Fields(text), " ") {
+			o.Findings = append(o.Findings, Finding{Kind: "D", What: "re-flowing changes the words of the text", Impl: short(got, 800)})
+		}
+		return o
+	}
 	impl, pmsg := implParse(text)
 	model := env.Drv.Ask("parse", hx(text))
 	if impl != model {
